@@ -81,6 +81,19 @@ func (fc *FnCtx) call(in ssa.Instruction, cc *ssa.CallCommon, pos token.Pos) V {
 				}
 				env := fc.newEnv(fc.cur, fc.entry)
 				env.at = fc.curBlock
+				// the loop's own variables as they are in this round (rangeindex: the head's counter, one behind the
+				// element the round works on)
+				var phis []*ssa.Phi
+				for _, in := range h.Instrs {
+					if ph, ok := in.(*ssa.Phi); ok {
+						phis = append(phis, ph)
+					} else {
+						break
+					}
+				}
+				for n, v := range fc.phiNames(phis, func(p *ssa.Phi) V { return fc.vals[p] }) {
+					env.vars[n] = v
+				}
 				k := 0
 				if cc.IsInvoke() {
 					env.vars["ARG0"] = fc.val(cc.Value)
